@@ -321,6 +321,19 @@ class Obj(Ty):
         return "obj:" + self.cls
 
 
+class Nullable(Ty):
+    """A reference that may be None: value is (flag: z3 Bool 'is None', ref V).  Resolved by a
+    path fork the first time it is read."""
+
+    kind = "nullable"
+
+    def __init__(self, inner):
+        self.inner = inner
+
+    def key(self):
+        return "nullable(%s)" % self.inner.key()
+
+
 class Fn(Ty):
     """A python-level constant (function, class, module, sentinel) - not a z3 value."""
 
